@@ -169,9 +169,27 @@ def server_case(rng, stats, length, pid):
                 else:
                     feed(ps.msg(20, sid, cmd_body("play", 0.0, ("z",), [s(rng.choice([b"key", b"stream1"]))])))
                 rid = sim.next_req; sim.out[rid] = (kind, sid); sim.next_req += 1
+                sibs = []
+                if rng.chance(1, 3):
+                    # sibling requests: several undecided requests for the SAME stream, decided below in any order
+                    # (deciding one must not decide, or lose, the others)
+                    for _ in range(rng.range(1, 2)):
+                        k2 = rng.choice(["pub", "play"])
+                        if k2 == "pub":
+                            feed(ps.msg(20, sid, cmd_body("publish", 0.0, ("z",), [s(rng.choice([b"key", b"other"])), s("live")])))
+                        else:
+                            feed(ps.msg(20, sid, cmd_body("play", 0.0, ("z",), [s(rng.choice([b"key", b"other"]))])))
+                        sibs.append(sim.next_req); sim.out[sim.next_req] = (k2, sid); sim.next_req += 1
+                    bump(stats, "srv_sibling_requests")
                 if depth >= 5:
-                    ops.append(f"srv.accept {rand_now(rng, st)} {rid}"); sim.out.pop(rid); sim.done.append(rid)
-                    sim.streams[sid] = "publishing" if kind == "pub" else "playing"
+                    order = sorted([rid] + sibs, key=lambda _: rng.below(1 << 30))
+                    for r in order:
+                        k_, _sd = sim.out.pop(r); sim.done.append(r)
+                        if r == rid or rng.chance(2, 3):
+                            ops.append(f"srv.accept {rand_now(rng, st)} {r}")
+                            sim.streams[sid] = "publishing" if k_ == "pub" else "playing"
+                        else:
+                            ops.append(f"srv.reject {rand_now(rng, st)} {r} {hexb(b'NetStream.Play.Failed')} {hexb(b'no')}")
         if depth >= 5 and rng.chance(1, 4):
             # a second connection request that the application rejects: the accepted connection and its streams stand
             feed(ps.msg(20, 0, cmd_body("connect", 3.0, ("o", [(b"app", s(rng.choice([b"other", app])))]), [])))
